@@ -91,8 +91,10 @@ def table_specs(tier):
         for vals in itertools.product(range(0, hi), repeat=6):
             specs.append((sh, vals, (1, 2) if tier == 'quick' else (1, 2, 3)))
     if tier == 'thorough':
-        for vals in itertools.product((0, 1, 5, 7), repeat=4):
-            specs.append(((2, 2), vals, (1, 5, 7)))
+        # larger counts; the number of generator answers is the product over the vectors of C(total, n), so the
+        # totals stay <= 8 (C(8,4)^2 = 4900 answers per call)
+        for vals in itertools.product((0, 1, 4), repeat=4):
+            specs.append(((2, 2), vals, (1, 4, 5)))
     return specs
 
 
